@@ -63,6 +63,7 @@ type Pattern struct {
 	revision      revision
 	procFun       map[termType]algo.Algo
 	cache         *ChunkCache
+	cacheEpoch    int
 	denylist      map[int32]struct{}
 }
 
@@ -145,6 +146,7 @@ func BuildPattern(cache *ChunkCache, patternCache map[string]*Pattern, fuzzy boo
 		revision:      revision,
 		delimiter:     delimiter,
 		cache:         cache,
+		cacheEpoch:    cache.Epoch(),
 		denylist:      denylist,
 		procFun:       make(map[termType]algo.Algo)}
 
@@ -293,7 +295,9 @@ func (p *Pattern) Match(chunk *Chunk, slab *util.Slab) []Result {
 	matches := p.matchChunk(chunk, space, slab)
 
 	if p.cacheable {
-		p.cache.Add(chunk, cacheKey, matches)
+		// The cache is cleared when nth or denylist changes. Do not let an
+		// ongoing search for the old pattern repopulate it.
+		p.cache.AddIfCurrent(chunk, cacheKey, matches, p.cacheEpoch)
 	}
 	return matches
 }
